@@ -1,7 +1,8 @@
 (* C07 — Containers keep ownership and ordering invariants. Statements only;
-   proofs in proofs/Rack_p.v, Frame_p.v, Containers_p.v. *)
-From Coq Require Import ZArith List Bool Permutation.
-From EosV Require Import lib.AList model.World model.Ops proofs.Rack_p proofs.Frame_p proofs.Containers_p.
+   proofs in proofs/Rack_p.v, Frame_p.v, Containers_p.v, Owner_p.v, Cinv_p.v. *)
+From Coq Require Import ZArith QArith List Bool Permutation.
+From EosV Require Import lib.AList gen.T_eos model.World model.Ops model.Wf proofs.Rack_p proofs.Frame_p
+     proofs.Containers_p proofs.Owner_p proofs.Cinv_p.
 Import ListNotations.
 
 (* no trailing holes remain; trimming changes neither items nor their positions *)
@@ -93,6 +94,61 @@ Theorem C07_remove_refines : forall s f k a s',
               get_rack (fst s') f k = cleanup (list_del (get_rack (fst s) f k) n).
 Proof. exact rack_remove_ok. Qed.
 
+(* ---- ownership: for every world and every fuel, attaching an item to a
+   container sets exactly that item's container reference and detaching clears
+   exactly it; loading, unloading, autocharge creation and removal, and every
+   message composed on the way change no item's fit-level reference ---- *)
+Theorem C07_add_sets_exactly_one_reference : forall n s i p it,
+  J (fst s) -> get_item (fst s) i = Some it -> (racklike_of p <> None -> ~ childcls (i_cls it)) ->
+  forall j, fitcont (fst (add_item (S n) s i p)) j = if Nat.eqb j i then racklike_of p else fitcont (fst s) j.
+Proof. intros n s i p it Js Hi Hc. exact (proj1 (add_item_ownership n s i p it Js Hi Hc)). Qed.
+Theorem C07_remove_clears_exactly_one_reference : forall n s i,
+  J (fst s) ->
+  forall j, fitcont (fst (remove_item (S n) s i)) j = if Nat.eqb j i then None else fitcont (fst s) j.
+Proof. intros n s i Js. exact (proj1 (remove_item_ownership n s i Js)). Qed.
+Theorem C07_load_unload_keep_references : forall n s i,
+  J (fst s) ->
+  (forall j, fitcont (fst (load n s i)) j = fitcont (fst s) j) /\
+  (forall j, fitcont (fst (unload n s i)) j = fitcont (fst s) j).
+Proof. intros n s i Js. split; [exact (proj1 (load_KEEP n s i Js))|exact (proj1 (unload_KEEP n s i Js))]. Qed.
+
+(* ---- every history: from the empty system, after any sequence of public
+   operations in which new ids are fresh and container calls name an existing
+   fit (op_okb, evaluated by the extracted driver on every generated call):
+   an item is listed by a slot / set / rack of a fit exactly when its own
+   container reference names that container; no container lists an item
+   twice; an item is in at most one place. Raising calls included. ---- *)
+Theorem C07_containers_consistent_after_every_history : forall pen ops,
+  ops_okb (init_sys pen) ops = true ->
+  let w := s_w (run (init_sys pen) ops) in
+  (forall p i, In i (members w p) <-> fitcont w i = Some p) /\
+  (forall p, NoDup (members w p)) /\
+  (forall p q i, In i (members w p) -> In i (members w q) -> p = q).
+Proof.
+  intros pen ops H w. pose proof (containers_consistent pen ops (ops_okb_ok ops _ H)) as C.
+  split; [exact (proj1 (proj2 C))|split; [exact (proj2 (proj2 C))|]].
+  intros p q i. now apply CI_one_place.
+Qed.
+
+(* each single operation keeps the invariant from any consistent world *)
+Theorem C07_every_operation_keeps_consistency : forall w o,
+  CI w -> op_okb w o = true -> CI (fst (fst (md_op w o))).
+Proof. intros w o C H. apply md_op_CI; [exact C|now apply op_okb_ok]. Qed.
+
+Definition c07_demo : list op :=
+  [ ONewItem 1 CShip 100 1 0; ONewItem 2 CModHigh 200 1 0; ONewItem 3 CModHigh 201 1 0;
+    ONewFit 10 4; OSlot 10 SlShip (Some 1%nat); ORackAppend 10 RHigh 2; ORackPlace 10 RHigh 3 3;
+    ORackAppend 10 RHigh 2 (* raises ValueError *); ORackRemove 10 RHigh (RItem (Some 2%nat));
+    OSlot 10 SlShip (Some 3%nat) (* raises: 3 is in the rack; the ship is put back *) ]%Z.
+Example C07_history_nonvacuous :
+  ops_okb (init_sys []) c07_demo = true /\
+  let w := s_w (run (init_sys []) c07_demo) in
+  get_rack w 10 RHigh = [None; None; Some 3%nat] /\
+  members w (PRack 10 RHigh) = [3%nat] /\ fitcont w 3 = Some (PRack 10 RHigh) /\ fitcont w 2 = None /\
+  members w (PSlot 10 SlShip) = [1%nat] /\ fitcont w 1 = Some (PSlot 10 SlShip) /\
+  members w (PSlot 10 SlCharacter) = [4%nat].
+Proof. vm_compute. repeat split. Qed.
+
 Example C07_nonvacuous :
   cleanup [Some 1%nat; None; Some 2%nat; None; None] = [Some 1%nat; None; Some 2%nat]
   /\ equip_list [Some 1%nat; None; Some 2%nat] 9 = ([Some 1%nat; Some 9%nat; Some 2%nat], 1%nat)
@@ -121,3 +177,8 @@ Print Assumptions C07_append_refines.
 Print Assumptions C07_insert_refines.
 Print Assumptions C07_equip_refines.
 Print Assumptions C07_remove_refines.
+Print Assumptions C07_add_sets_exactly_one_reference.
+Print Assumptions C07_remove_clears_exactly_one_reference.
+Print Assumptions C07_load_unload_keep_references.
+Print Assumptions C07_containers_consistent_after_every_history.
+Print Assumptions C07_every_operation_keeps_consistency.
